@@ -33,6 +33,7 @@ pub fn case_json(c: &Case, prior: u64, op: &str, round: u32, pos: Option<usize>)
         "phase": "ops",
         "op": op,
         "ring": c.entries,
+        "kernel_ring_entries": c.entries.next_power_of_two(),
         "flags": c.flags,
         "flags_name": flags_name(c.flags),
         "linked": c.linked,
